@@ -223,7 +223,7 @@ def audit(ctx, prog, entries, residue, label, extra=()):
     n_edges = 0
     used = set()
     for f in cl:
-        ctx.visit(f)
+        ctx.visit(f, weak=True)
         sy = Sym(f)
         for e in edges(f):
             n_edges += 1
